@@ -38,9 +38,18 @@ var ctl = func() *seqCtl {
 
 var sched = lib.NewSched()
 
+// arrivals at the two yield points of Backend.Watch (also by goroutines the scheduler does not control, e.g. the
+// watch handlers of the etcd front end): the driver learns from them that a registration has been done
+var nSubscribed, nCacheRead int64
+
 func yieldHook(point string) {
 	switch point {
 	case "watch.subscribed", "watch.cache_read":
+		if point == "watch.subscribed" {
+			atomic.AddInt64(&nSubscribed, 1)
+		} else {
+			atomic.AddInt64(&nCacheRead, 1)
+		}
 		sched.Yield(point)
 	case "seq.idle", "seq.before_cache", "seq.before_broadcast":
 		gid := lib.GoID()
@@ -146,17 +155,24 @@ type bw struct {
 	got    []ev
 	nbatch int
 	closed bool
+	wire   func() []ev // set for a watch carried by the etcd front end: the events on the wire for its watch id
 	lazy   bool // the consumer reads only when told
 	hubbed int  // hub items since the last drain emitted for this watcher
 	dead   bool
 }
 
 func (w *bw) snapshot() ([]ev, bool) {
+	if w.wire != nil {
+		return w.wire(), false
+	}
 	w.mu.Lock()
 	defer w.mu.Unlock()
 	return append([]ev{}, w.got...), w.closed
 }
 func (w *bw) count() int {
+	if w.wire != nil {
+		return len(w.wire())
+	}
 	w.mu.Lock()
 	defer w.mu.Unlock()
 	return len(w.got)
@@ -632,7 +648,7 @@ func (r *bkRig) emitDrain(w *bw) {
 // settle waits until an eager consumer has received what the history so far calls for (bounded), then a
 // little longer, and records the observation. quiet = the driver claims the stream is complete.
 func (r *bkRig) settle(w *bw, quiet bool) {
-	if w.dead || w.ch == nil {
+	if w.dead || (w.ch == nil && w.wire == nil) {
 		return
 	}
 	want := len(idealGo(w.S, w.P, w.base, r.sigma))
